@@ -203,4 +203,34 @@ theorem totalBytes_amrFile (o : Output) (cpu : Nat) :
       congr 1
       split <;> simp
 
+/-- the variable table the loader builds for a hydro file: one item per descriptor variable, with its declared type -/
+def hydroItems (o : Output) (read : Nat → Bool) : List VarItem :=
+  (List.range (nvarOf o .hydro)).map fun iv => ⟨(o.hydroVars.getD iv ("", .d)).1, varTyOf o .hydro iv, read iv⟩
+
+/-- bytes of one (level, domain) block of the hydro file = the domain header (`domain_header_advance`) plus, when the file
+    holds octs there, `2^ndim` times the advance of the variable loop (`readVars_spec` when read, `var_stepover_eq_block` when
+    stepped over — the same amount, whatever is read or skipped and whatever the declared types) -/
+theorem totalBytes_varBlock_hydro (o : Output) (cpu l d : Nat) (read : Nat → Bool) :
+    totalBytes (varBlock o .hydro cpu l d) = skelBytes domHdrSkel +
+      (if (o.heldOf cpu l d).length = 0 then 0
+       else o.twotondim * varsBytes (o.heldOf cpu l d).length (hydroItems o read)) := by
+  rw [← skelBytes_skelOf, skelOf_varBlock]
+  unfold skelBytes
+  rw [List.map_append, List.sum_append]
+  congr 1
+  by_cases h0 : (o.heldOf cpu l d).length = 0
+  · simp [h0]
+  · simp only [h0, if_false]
+    have hv : varsBytes (o.heldOf cpu l d).length (hydroItems o read) =
+        ((List.range (nvarOf o .hydro)).map fun iv => recBytes (varTyOf o .hydro iv, (o.heldOf cpu l d).length)).sum := by
+      simp [varsBytes, hydroItems, List.map_map, Function.comp_def, recBytes]
+    rw [hv]
+    generalize o.twotondim = n
+    induction n with
+    | zero => simp
+    | succ n ih =>
+      rw [List.range_succ, List.flatMap_append, List.map_append, List.sum_append, ih]
+      simp only [List.flatMap_cons, List.flatMap_nil, List.append_nil, List.map_map, Function.comp_def]
+      rw [Nat.succ_mul]
+
 end Osyris.Layout
